@@ -93,6 +93,26 @@ CLAIMED = {
              'export\'s own targets are byte-identical, the failed name is not in the registry, and after removing the obstacle the retry '
              'yields exactly the directory of the fault-free history.',
         ref='DESIGN.md 4 (C17)'),
+    'C10': dict(
+        text='For every attribute argument list of up to 4 (thorough: 7) tokens whose token kinds (ident, =, comma, string / int literal, '
+             'group, other punct) and identifier / literal texts (over the vocabulary of all table keys, the rename_all values and '
+             '"anything else") are solver variables, each of the eight generated parsers (ts and serde table x struct, enum, variant, '
+             'field) returns on every path exactly what a reference interpreter of the documented attribute grammar returns: same '
+             'record, same Ok/Err; in particular unknown or list-form serde items are skipped without touching their neighbours and the '
+             'serde and ts tables agree on every shared key. For attribute lists of 2 (3) attributes of symbolic kind ts/serde/other, '
+             'from_attrs equals "all ts lists merged first, serde lists underneath (a serde list that fails to parse dropped as a whole), '
+             'bools or-ed, serde ignored after ts(skip)"; with serde-compat off serde attributes have no effect; no-serde-warnings does '
+             'not change the meaning. Never a panic.',
+        ref='DESIGN.md 4 (C10)'),
+    'C12': dict(
+        text='Every built-in impl TS of ts-rs/src/lib.rs (direct and macro-made: primitives, NonZero*, strings/paths/net addresses, Option, '
+             'Result, Vec, slices, arrays, maps, sets, ranges, the wrapper types, tuples of arity 1..=10) is executed with abstract type '
+             'parameters (their TS methods are uninterpreted holes, so the result covers every instantiation and nesting depth) and the '
+             'array length as a solver variable 0..=66: name() and inline() equal serde\'s JSON shape over the same holes, visit_generics '
+             'visits exactly the type arguments, visit_dependencies forwards exactly theirs. The shape table is validated against '
+             'serde_json on sample values and the impl pairing against native name() on every run. PhantomData/Weak are a listed known '
+             'finding. Feature-gated third-party impls are outside.',
+        ref='DESIGN.md 6 (C12)'),
 }
 
 NOT_APPLICABLE = {
